@@ -698,6 +698,17 @@ def struct_mapping_family(out, prop):
                             if (tv[0] == 'ok') != (cv is None):
                                 out.violation(f'{prop}:struct-mapping:passes-disagree', f'{cls.__name__}: try_convert of {d!r} gives {tv[0]}, collect_errors gives {cv!r}', {'class': cls.__name__, 'data': repr(d)})
                                 continue
+                            if not got and not isinstance(cv, Exception) and cv is not None:
+                                # the diagnostic tree of a rejected mapping: a product node whose `missing` is exactly the required
+                                # fields that no key names, whose `extra` is exactly the unknown keys (none under allow_extra)
+                                absent = {r for r in required if r not in {f.name for f, _ in combo}}
+                                unknown = set() if info.opts.allow_extra else {k for k in d if k.startswith('unknown_')}
+                                m_got, e_got = getattr(cv, 'missing', None), getattr(cv, 'extra', None)
+                                if m_got is None or set(m_got) != absent or set(e_got) != unknown:
+                                    out.violation(f'{prop}:struct-mapping:tree', f'{cls.__name__}: the error tree for {d!r} has missing={sorted(m_got) if m_got is not None else None}, '
+                                                  f'extra={sorted(map(str, e_got)) if e_got is not None else None}; absent required fields are {sorted(absent)}, unknown keys {sorted(unknown)} '
+                                                  f'(tree: {type(cv).__name__})', {'class': cls.__name__, 'data': repr(d)})
+                                    continue
                             if got != want:
                                 why = ('a field is named twice' if named_twice else 'unknown keys' if extra and not info.opts.allow_extra else
                                        'a required field is absent' if not all(r in {f.name for f, _ in combo} for r in required) else 'a value is not a member of its field type' if not ok_values else 'nothing is wrong with it')
